@@ -178,7 +178,23 @@ def job_worker(job):
             f'export incomplete ({label}): {len(vectors)} vectors for '
             f'{res.distinct} states')
     drv = Driver(random.Random(job['seed']), job['row_prob'], job['text_row_prob'])
-    drv.vectors(vectors)
+
+    # every other vector is bound from a thread which did not import the
+    # library (a worker thread of an application): same answers there
+    import threading
+    box = []
+
+    def body():
+        try:
+            drv.vectors(vectors[1::2])
+        except BaseException as exc:     # noqa  re-raised below
+            box.append(exc)
+    drv.vectors(vectors[0::2])
+    t = threading.Thread(target=body)
+    t.start()
+    t.join()
+    if box:
+        raise box[0]
     drv.flush_rows()
     drv.flush_num_rows()
     drv.flush_text_rows()
